@@ -552,3 +552,50 @@ mut('c12-include-plus-filter', 'C12', ['C12.4'], M,
 mut('c12-raise-if-none-inverted', 'C12', ['C12.4'], M,
     "        if raise_if_none and not included_results:\n", "        if raise_if_none and not event_results:\n",
     'raise_if_none tests all results instead of the included ones')
+
+# ================================================================================================ C13
+mut('c13-no-bound-after-insert', 'C13', ['C13.1'], S,
+    "        # Clean up if over the limit\n        if self.max_history_size and len(self.event_history) > self.max_history_size:\n            self.cleanup_event_history()\n\n        return event",
+    "        return event",
+    'dispatch no longer trims the history')
+mut('c13-bound-step-conditional', 'C13', ['C13.1'], S,
+    "        # Clean up if over the limit\n        if self.max_history_size and len(self.event_history) > self.max_history_size:\n            self.cleanup_event_history()\n\n        return event",
+    "        # Clean up if over the limit\n        if self.max_history_size and len(self.event_history) > self.max_history_size and event.event_parent_id is None:\n            self.cleanup_event_history()\n\n        return event",
+    'child events do not trigger trimming')
+mut('c13-no-bound-after-process', 'C13', ['C13.1'], S,
+    "        # Clean up excess events to prevent memory leaks\n        if self.max_history_size:\n            self.cleanup_event_history()\n\n    def _get_applicable_handlers",
+    "        # Clean up excess events to prevent memory leaks\n        if self.max_history_size and not self.events_started:\n            self.cleanup_event_history()\n\n    def _get_applicable_handlers",
+    'no trimming while anything is started')
+mut('c13-off-by-one', 'C13', ['C13.2'], S,
+    "        events_to_remove_count = total_events - self.max_history_size\n", "        events_to_remove_count = total_events - self.max_history_size - 1\n",
+    'leaves N+1 events')
+mut('c13-started-first', 'C13', ['C13.2'], S,
+    "            elif event.event_status == 'started':\n                started_events.append((event_id, event))\n            else:  # completed or error\n                completed_events.append((event_id, event))",
+    "            elif event.event_status == 'started':\n                completed_events.append((event_id, event))\n            else:  # completed or error\n                started_events.append((event_id, event))",
+    'started and completed lists swapped')
+mut('c13-slice-from-end', 'C13', ['C13.2'], S,
+    "            events_to_remove.extend([event_id for event_id, _ in completed_events[:remove_from_completed]])",
+    "            events_to_remove.extend([event_id for event_id, _ in completed_events[-remove_from_completed:]])",
+    'newest completed events evicted first')
+mut('c13-sort-descending', 'C13', ['C13.2'], S,
+    "        completed_events.sort(key=lambda x: x[1].event_created_at.timestamp())  # pyright",
+    "        completed_events.sort(key=lambda x: x[1].event_created_at.timestamp(), reverse=True)  # pyright",
+    'completed events sorted newest-first')
+mut('c13-pending-before-started', 'C13', ['C13.2'], S,
+    "            events_to_remove.extend([event_id for event_id, _ in started_events[:remove_from_started]])",
+    "            events_to_remove.extend([event_id for event_id, _ in pending_events[:remove_from_started]])",
+    'pending events evicted in the started block')
+mut('c13-no-decrement', 'C13', ['C13.2'], S,
+    "            events_to_remove_count -= remove_from_completed\n", "",
+    'in-flight events evicted although enough completed ones were removed')
+mut('c13-blind-cleanup-called', 'C13', ['C13.3'], S,
+    "        # Clean up if over the limit\n        if self.max_history_size and len(self.event_history) > self.max_history_size:\n            self.cleanup_event_history()\n",
+    "        # Clean up if over the limit\n        if self.max_history_size and len(self.event_history) > self.max_history_size:\n            self.cleanup_event_history()\n            self.cleanup_excess_events()\n",
+    'status-blind cleanup called from dispatch')
+mut('c13-delete-elsewhere', 'C13', ['C13.3'], S,
+    "        # Mark event as complete if all handlers are done\n        event.event_mark_complete_if_all_handlers_completed()\n",
+    "        # Mark event as complete if all handlers are done\n        event.event_mark_complete_if_all_handlers_completed()\n        if event.event_parent_id is None and event.event_id in self.event_history and not event.event_results:\n            del self.event_history[event.event_id]\n",
+    'process_event deletes events from the history')
+mut('c13-stop-always-clears', 'C13', ['C13.3'], S,
+    "        if clear:\n            self.event_history.clear()\n", "        if clear or timeout == 0:\n            self.event_history.clear()\n",
+    'stop(timeout=0) clears the history')
